@@ -22,7 +22,7 @@ STUBS = ["np proxy", "SymArray"]
 
 def bounds_text(tier):
     if tier == "quick":
-        return "orderings n=2..7; efficiency/additivity/homogeneity/null/entry-point n=2..9; relabelling all perms n<=4, transpositions n<=6"
+        return "orderings n=2..7, and again for n after another player count was evaluated first in the same interpreter (8 size pairs); efficiency/additivity/homogeneity/null/entry-point n=2..9; relabelling all perms n<=4, transpositions n<=6"
     return "orderings n=2..7; consequences n=2..10; relabelling all perms n<=5, adjacent transpositions n<=8"
 
 
@@ -43,6 +43,10 @@ def tasks(tier, seed):
         add("homogeneity", n)
         for i in sorted({0, n // 2, n - 1}):
             add("null", n, player=i)
+    # state shared between calls with different player counts: a bigger (or smaller) game evaluated FIRST in the same interpreter
+    pairs = [(7, 4), (6, 3), (5, 4), (4, 5), (3, 6), (8, 5), (5, 2), (9, 6)] + ([(10, 7), (7, 6), (6, 7), (10, 3)] if tier == "thorough" else [])
+    for first, n in pairs:
+        add("after-other-size", n, first=first)
     for n in range(2, (5 if tier == "thorough" else 4) + 1):
         for perm in itertools.permutations(range(n)):
             if list(perm) != list(range(n)):
@@ -88,6 +92,11 @@ def _phi(pk, g):
 
 def scenario(pk, params, inp):
     n = params["n"]
+    if params["kind"] == "after-other-size":
+        m = params["first"]
+        other = _game(pk, m, [inp.const(0)] + [inp.const(bin(S).count("1") ** 2) for S in range(1, 2 ** m)])
+        list(pk.shapley.compute_shapley_value(other))
+        pk.shapley.compute_shapley_value_for_player(0, other)
     v = _vals(inp, n)
     g = _game(pk, n, v)
     out = {"v": _phi(pk, g)}
@@ -149,7 +158,7 @@ def claims(params, inp, out, lg):
     pv = out["v"]
     cl = [("entry-points-agree", lg.And([lg.eq(a, b) for a, b in zip(pv["all"], pv["single"])])),
           ("count", len(pv["all"]) == n)]
-    if k == "orderings":
+    if k in ("orderings", "after-other-size"):
         ref = _ordering_reference(n, v, zero)
         for i in range(n):
             cl.append((f"orderings-average:i={i}", lg.eq(pv["all"][i], ref[i])))
